@@ -117,7 +117,8 @@ def injection_axioms():
         kind = z3.Function('kind_' + dst, D, z3.IntSort())
         k = kinds.setdefault(dst, [])
         k.append(src)
-        ax.append(z3.ForAll([x], z3.And(prj(inj(x)) == x, kind(inj(x)) == len(k),
+        ax.append(z3.ForAll([x], z3.And(prj(inj(x)) == x,
+                                        z3.Implies(x != none_of(S), kind(inj(x)) == len(k)),
                                         (inj(x) == none_of(D)) == (x == none_of(S))),
                             patterns=[inj(x)]))
         # type of the embedded object is the type of the object
@@ -299,7 +300,7 @@ OPEN_RAISES = ['$OtherException']
 
 
 def open_site(X, call, node, result_T=None, rely=None, raises=None, reenter=True,
-              name='callback'):
+              name='callback', check_wf=None):
     """One call into code the verifier cannot see.
 
     * appends `call` to the per-activation log;
@@ -313,6 +314,16 @@ def open_site(X, call, node, result_T=None, rely=None, raises=None, reenter=True
     X.events.append(('open', name, call))
     log_append(X, call)
     rely = rely if rely is not None else spec.rely_objects(X)
+    if check_wf is None:
+        check_wf = reenter
+    if check_wf and not reenter:
+        # the callback may OBSERVE the objects (so their invariants must hold
+        # here) but is assumed not to modify them
+        from .spec import oblige_split
+        for obj in rely:
+            for cname, role, f in spec.wf_clauses(X, obj):
+                oblige_split(X, '%s:wf-at-callback[%s].%s' % (X.fn_name, name, cname), f,
+                             'wf-at-callback', 'aux', assume_after=True)
     if reenter:
         for obj in rely:
             from .spec import oblige_split
@@ -332,8 +343,9 @@ def open_site(X, call, node, result_T=None, rely=None, raises=None, reenter=True
         finally:
             X.old_stack.pop()
     else:
-        spec.note_assumption('callback at %s:%s does not re-enter the object under verification'
-                             % (X.fn_name, name))
+        spec.note_assumption('callback at %s:%s does not modify the object under verification%s'
+                             % (X.fn_name, name, '' if check_wf else
+                                ' and does not observe it (invariant broken at the site)'))
     cats = list(raises if raises is not None else spec.open_raise_categories)
     which = X.choose([True] * (1 + len(cats))) if cats else 0
     if which > 0:
